@@ -208,4 +208,30 @@ theorem zeros_unit : ∀ (dims : List (Nat × Nat)) (k : Nat), hasZero dims = fa
       · simp only [strideAt] at o1; omega
       · intro h; simp only [List.cons.injEq, true_and] at h; exact hne h
 
+theorem valid_last : ∀ (dims : List (Nat × Nat)), hasZero dims = false →
+    ValidIdx dims (dims.map (fun d => d.1 - 1)) ∧
+    offset dims (dims.map (fun d => d.1 - 1)) = maxOffset dims := by
+  intro dims
+  induction dims with
+  | nil => intro _; exact ⟨.nil, rfl⟩
+  | cons d ds ih =>
+    obtain ⟨size, stride⟩ := d
+    intro hz
+    simp only [hasZero, List.any_cons, Bool.or_eq_false_iff, beq_eq_false_iff_ne] at hz
+    obtain ⟨v, o⟩ := ih (by simpa [hasZero] using hz.2)
+    refine ⟨?_, by simp only [List.map_cons, offset, maxOffset, o]⟩
+    show ValidIdx ((size, stride) :: ds) ((size - 1) :: ds.map (fun d => d.1 - 1))
+    exact .cons (by omega) v
+
+/-- A layout all of whose valid indices map below `n` needs at most `n` elements. -/
+theorem minDataLen_le_of_bounded {dims : List (Nat × Nat)} {n : Nat}
+    (h : ∀ j, ValidIdx dims j → offset dims j < n) : minDataLen dims ≤ n := by
+  unfold minDataLen
+  cases hz : hasZero dims
+  · obtain ⟨v, o⟩ := valid_last dims hz
+    have := h _ v
+    simp only [Bool.false_eq_true, if_false]
+    omega
+  · simp
+
 end RtenVerif.TensorBounds
